@@ -571,9 +571,15 @@ where
                 );
             }
 
-            let permitted = {
+            let (permitted, trial) = {
                 let mut circuit = circuit.lock().await;
-                circuit.try_acquire(&config)
+                let permitted = circuit.try_acquire(&config);
+                let trial = if permitted {
+                    circuit.begin_trial()
+                } else {
+                    None
+                };
+                (permitted, trial)
             };
 
             #[cfg(feature = "tracing")]
@@ -603,6 +609,7 @@ where
             let duration = crate::circuit::clock_now().duration_since(start);
 
             let mut circuit = circuit.lock().await;
+            drop(trial);
             if config.failure_classifier.classify(&result) {
                 circuit.record_failure(&config, duration);
             } else {
@@ -738,9 +745,15 @@ where
                 );
             }
 
-            let permitted = {
+            let (permitted, trial) = {
                 let mut circuit = circuit.lock().await;
-                circuit.try_acquire(&config)
+                let permitted = circuit.try_acquire(&config);
+                let trial = if permitted {
+                    circuit.begin_trial()
+                } else {
+                    None
+                };
+                (permitted, trial)
             };
 
             #[cfg(feature = "tracing")]
@@ -776,6 +789,7 @@ where
             let duration = crate::circuit::clock_now().duration_since(start);
 
             let mut circuit = circuit.lock().await;
+            drop(trial);
             if config.failure_classifier.classify(&result) {
                 circuit.record_failure(&config, duration);
             } else {
